@@ -16,3 +16,4 @@ CONSTANTS
   REORIENT = FALSE
   BIGSET = TRUE
   SAMPLE = 97
+  STREAMLEN = 0
